@@ -100,6 +100,15 @@ class C08(Check):
                 for dv in ({"a": "CLUBS", "b": "CLUBS", "c": ["CLUBS", "HEARTS"]}, {"a": "HEARTS", "b": "HEARTS", "c": []}, {"a": "SPADES", "b": "DIAMONDS", "c": ["SPADES"]}):
                     yield dict(base, writer=w2, reader=r2, datum=dv, steps=["fixed", "split-named"])
                     yield dict(base, writer=w2, reader=r2, datum=dv, steps=["fixed", "split-named"], via="container", parsed=True)
+        # a logical type the library does not know is the plain underlying type: promotions apply
+        ul = lambda t, n: {"type": t, "logicalType": n}  # noqa: E731
+        for via in ("schemaless", "container"):
+            yield dict(base, writer=ul("string", "label-text"), reader="bytes", datum="caf\u00e9", via=via)
+            yield dict(base, writer=ul("bytes", "blob"), reader="string", datum=b"token", via=via)
+            yield dict(base, writer=ul("int", "my-count"), reader="double", datum=3, via=via)
+            yield dict(base, writer={"type": "record", "name": "UL", "fields": [{"name": "a", "type": {"type": "array", "items": ul("long", "ticks")}}, {"name": "b", "type": ["null", ul("int", "x")]}]},
+                       reader={"type": "record", "name": "UL", "fields": [{"name": "a", "type": {"type": "array", "items": "double"}}, {"name": "b", "type": ["null", "float", "long"]}]},
+                       datum={"a": [1, 2**40], "b": 7}, via=via)
         # regression cases of the repaired resolution defects (one per fix commit)
         recA = {"type": "record", "name": "ns.A", "fields": [{"name": "x", "type": "int"}]}
         enumA = {"type": "enum", "name": "A", "symbols": ["P", "Q"]}
